@@ -147,12 +147,24 @@ CLAIMED["C11"] = {
             "under sqlite's type order NULL < INTEGER < TEXT with code-point text order, proved total and transitive for "
             "every key list and reverse (query_sorted, query_sorted_single); without order_by rows come in input order; "
             "count_features_of_type equals the number iterated; featuretypes()/seqids() are exactly the distinct values. "
+            "SQL text layer (GffModel/Sql.lean, the property's own mechanism 'text and arguments assembled in lock-step'): "
+            "helpers.make_query, FeatureDB._relation, region and the counting queries are modelled down to the text they "
+            "hand to sqlite; the text is the rendering of a small SQL AST (makeQuery_text, relation_text, region_text), the "
+            "number of '?' equals the number of arguments and every placeholder is bound to the value meant for its clause "
+            "(lockstep, lockstep_count, lockstep_relation, lockstep_region, lockstep_general), and the textbook evaluation "
+            "of the generated statement returns exactly what the meaning-level model returns - same rows, same order - "
+            "for all databases and accepted arguments (eval_makeQuery_eq_runQuery, eval_relation_eq_runRelation, "
+            "eval_region_eq_region, eval_count_eq_countFeatures), so the C11/C06/C02 theorems are statements about the "
+            "generated SQL. Hypotheses, each with a proved witness of necessity: order_by names a known column, text "
+            "coordinates are plain integer literals, region() has at least one position restriction. "
             "Unit-layer correspondence over mixed-case / non-ASCII seqids, numeric-looking text, ties and '.' "
-            "coordinates, every column as string, 1-tuple and in pairs; oracle: brute-force filter and sortedness.",
+            "coordinates, every column as string, 1-tuple and in pairs; the statements actually executed by the real methods "
+            "(recorded through a proxy on db.conn) compared byte for byte with the model's text and arguments, and the "
+            "model's evaluation compared with sqlite's rows; oracle: brute-force filter and sortedness.",
     "note": "Trusted: Lean kernel + standard axioms; sqlite's ORDER BY semantics (type order, BINARY collation, DESC "
             "binding to the last term) modelled, validated by the correspondence; order among ties unspecified; the "
             "'attributes'/'extra' sort keys are judged by the oracle only.",
-    "technique": "Lean 4 theorems (mergeSort permutation/sortedness with a proved total preorder) + correspondence",
+    "technique": "Lean 4 theorems (mergeSort permutation/sortedness with a proved total preorder; text -> AST -> meaning refinement of the generated SQL) + correspondence on executed statements",
     "design_ref": "DESIGN.md §3 C11",
 }
 
